@@ -544,6 +544,23 @@ def r43(ctx: Ctx) -> RuleReport:
             flat += t.elts if isinstance(t, (ast.Tuple, ast.List)) else [t]
         return any(isinstance(t, ast.Attribute) and t.attr == '_last' for t in flat)
 
+    # every method that advances the look-ahead also records the token it hands out
+    tokcls = ctx.repo.cls('penman._lexer', 'TokenIterator')
+    for mname, m in sorted(tokcls.methods.items()):
+        if mname in ('__init__',):
+            continue
+        adv = [n for n in walk_local(m.node) if isinstance(n, ast.Assign) and any(
+            isinstance(t, ast.Attribute) and t.attr == '_next' and norm(t.value) == 'self'
+            for tg in n.targets for t in (tg.elts if isinstance(tg, (ast.Tuple, ast.List)) else [tg]))]
+        if not adv:
+            continue
+        last = [n for n in walk_local(m.node) if isinstance(n, ast.Assign) and any(
+            isinstance(t, ast.Attribute) and t.attr == '_last' and norm(t.value) == 'self'
+            for tg in n.targets for t in (tg.elts if isinstance(tg, (ast.Tuple, ast.List)) else [tg]))]
+        rep.add(f'penman._lexer:TokenIterator.{mname}: advancing the look-ahead records the consumed token as the last token', m.loc(adv[0]),
+                'ok' if last else 'violation',
+                '' if last else f'`{norm(adv[0])[:60]}` advances the iterator but self._last is not updated in this method: an error at end of input is then '
+                                f'reported at the position of an earlier token (or at line 0) instead of the end of the last token')
     stores = [nd for nd in cfg.nodes if stores_last(nd)]
     if not stores:
         rep.oblige('next() records the consumed token as the last token', False, 'no store to self._last', fi.loc(),
@@ -554,7 +571,7 @@ def r43(ctx: Ctx) -> RuleReport:
         rep.oblige('the store to self._last cannot be followed by the exhaustion re-raise', not bad,
                    'self._last is overwritten before StopIteration is re-raised: expect() then reports the '
                    'end-of-input error at line 0, column 0 instead of the end of the last token' if bad else '',
-                   fi.loc(nd.ast), key=f'penman._lexer:TokenIterator.next: {norm(nd.ast)}')
+                   fi.loc(nd.ast), key=f'penman._lexer:TokenIterator.next: {norm(nd.ast)}', positive=True)
         # and the stored value is the token being returned
         rets = [n for n in walk_local(fi.node) if isinstance(n, ast.Return) and n.value is not None]
         val = nd.ast.value if isinstance(nd.ast, (ast.Assign, ast.AnnAssign)) else None
@@ -575,7 +592,8 @@ def r43(ctx: Ctx) -> RuleReport:
 def r41(ctx: Ctx) -> RuleReport:
     rep = RuleReport('R41', r41.title, floor=3)
     ft = ctx.repo.func('penman._format', 'format_triples')
-    strip = [n for n in walk_local(ft.node) if isinstance(n, ast.Call) and isinstance(n.func, ast.Attribute)
+    from ..resolve import local_callees, facts_ex
+    strip = [n for f in local_callees(ctx, ft, depth=1) for n in walk_local(f.node) if isinstance(n, ast.Call) and isinstance(n.func, ast.Attribute)
              and n.func.attr in ('lstrip', 'removeprefix') and n.args and try_fold(n.args[0]) == (True, ':')]
     rep.oblige('format_triples strips the leading colon of the role', bool(strip), '', ft.loc(), key='format_triples strips colon')
     pt = ctx.repo.func('penman._parse', '_parse_triples')
@@ -584,13 +602,16 @@ def r41(ctx: Ctx) -> RuleReport:
     IN = cond_facts(cfg)
     pm = ctx.repo.parent_map(pt.node)
     adds = False
-    for n in walk_local(pt.node):
-        if isinstance(n, ast.Assign) and isinstance(n.value, ast.BinOp) and isinstance(n.value.op, ast.Add) \
-                and try_fold(n.value.left) == (True, ':') and isinstance(n.targets[0], ast.Name) \
-                and isinstance(n.value.right, ast.Name) and n.value.right.id == n.targets[0].id:
-            v = n.targets[0].id
-            facts = facts_at(cfg, IN, pm, n)
-            if (f"{v}.startswith(':')", False) in facts:
+    for f in local_callees(ctx, pt, depth=1):
+        for n in walk_local(f.node):
+            # ':' + name   /   f':{name}'   evaluated where name is known not to start with a colon
+            nm = None
+            if isinstance(n, ast.BinOp) and isinstance(n.op, ast.Add) and try_fold(n.left) == (True, ':') and isinstance(n.right, ast.Name):
+                nm = n.right.id
+            if isinstance(n, ast.JoinedStr) and len(n.values) == 2 and isinstance(n.values[0], ast.Constant) and n.values[0].value == ':' \
+                    and isinstance(n.values[1], ast.FormattedValue) and isinstance(n.values[1].value, ast.Name):
+                nm = n.values[1].value.id
+            if nm and (f"{nm}.startswith(':')", False) in facts_ex(ctx, f, n):
                 adds = True
     rep.oblige('_parse_triples adds the colon exactly when it is absent', adds, '', pt.loc(), key='_parse_triples restores colon')
     # a flag carried from one conjunct to the next (was the `^` glued to the role?) is decided anew for every conjunct
